@@ -42,7 +42,7 @@ class GenericElongationGroove(GrooveBase, ReprMixin):
 
         :param usable_width: width of flank/face intersections
         :param ground_width: width of flank/ground-line intersections
-        :param flank_angle: angle of the flanks to the z-axis
+        :param flank_angle: angle of the flanks to the z-axis (less than π/2)
         :param depth: maximum depth
 
         :param r3: radius 3 (radius 2/radius 4)
@@ -77,6 +77,9 @@ class GenericElongationGroove(GrooveBase, ReprMixin):
         ]
         if not all(value is None or value >= 0 for value in mandatory_positive_or_zero):
             raise ValueError("Groove arguments have to be non-negative.")
+
+        if flank_angle is not None and not flank_angle < np.pi / 2:
+            raise ValueError("The flank angle has to be less than 90° (undercut flanks cannot be rolled).")
 
         try:
             if usable_width is None:
